@@ -35,7 +35,7 @@ def _logu(rng, lo, hi):
 
 BASE_MIX = {
     "C15": {"call": 5, "inverse": 4, "backward": 4, "construct": 2, "convert": 0.5,
-            "restart": 0.6, "drop": 0.3, "forget": 0.3, "mutate_output": 0.8, "load": 0.8,
+            "restart": 0.9, "drop": 0.3, "forget": 0.3, "mutate_output": 0.8, "load": 0.8,
             "set_default_dtype": 0.4, "func": 1.2, "roundtrip": 1.5},
     "C16": {"call": 6, "inverse": 3, "backward": 1.0, "construct": 2, "convert": 4,
             "restart": 1.5, "drop": 0.2, "forget": 0.1, "mutate_output": 0.2, "load": 0.0,
@@ -76,6 +76,8 @@ def gen_plan(profile, seed, tier="quick"):
         slots.append(f)
         if f in catalog.INV_OF and rng.random() < 0.75:
             slots.append(catalog.INV_OF[f])
+    if profile in ("C15", "C16") and rng.random() < 0.35:
+        slots.append(_pick(rng, slots))      # a twin slot (clones, class-level state)
     # "constructor storm" style (a quarter of the C15 runs): several slots of
     # ONE family group, constructed concurrently with different parameters by
     # all clients, then used; aimed at lazily initialised per-class / per-family
@@ -313,8 +315,26 @@ def gen_plan(profile, seed, tier="quick"):
                 slot_dtype[cs] = "float64" if how in ("double", "to64") else "float32"
                 prog.append({"op": "convert", "id": new_id(), "slot": cs, "how": how})
             elif k == "restart":
-                prog.append({"op": "restart", "id": new_id(), "slot": rng.randrange(len(slots)),
-                             "how": _pick(rng, ["deepcopy", "pickle", "state_dict"])})
+                rs = rng.randrange(len(slots))
+                rop = {"op": "restart", "id": new_id(), "slot": rs,
+                       "how": _pick(rng, ["deepcopy", "pickle", "state_dict"])}
+                twins = [i for i, f in enumerate(slots) if f == slots[rs] and i != rs]
+                if twins and rng.random() < 0.6:
+                    # clone: the copy lives on next to the original
+                    rop["dst"] = _pick(rng, twins)
+                    have.add(rop["dst"])
+                    slot_dtype[rop["dst"]] = slot_dtype.get(rs, "float32")
+                    if rs in cur_params:
+                        cur_params[rop["dst"]] = cur_params[rs]
+                prog.append(rop)
+                if "dst" in rop and rng.random() < 0.6:
+                    # use the two copies differently right away: are they independent?
+                    a, b = (rs, rop["dst"]) if rng.random() < 0.5 else (rop["dst"], rs)
+                    how = _pick(rng, ["double", "float", "to64", "to32"])
+                    slot_dtype[a] = "float64" if how in ("double", "to64") else "float32"
+                    prog.append({"op": "convert", "id": new_id(), "slot": a, "how": how})
+                    if slots[b] in catalog.INPUT_RANK:
+                        emit_call(c, prog, b)
             elif k == "drop":
                 ds = rng.randrange(len(slots))
                 have.discard(ds)
